@@ -149,9 +149,11 @@ class Player:
             return None
         return "".join(t for (_, _, t) in lsp.tree_text(r["result"]))
 
-    def check_obs(self, obs, where):
-        """glas/syntaxTree of every document against the predicted state; returns a mismatch or None"""
+    def check_obs(self, obs, where, only=None):
+        """glas/syntaxTree of every document (or of `only`) against the predicted state; returns a mismatch or None"""
         for d, units in sorted(obs["text"].items()):
+            if only is not None and d not in only:
+                continue
             exp = None if units == ABSENT else render(units, self.tab)
             got = self.server_text(d)
             if got != exp:
@@ -218,7 +220,15 @@ class Player:
             return f
         try:
             for i, st in enumerate(steps):
-                bad = self.check_obs(st["pre"], f"before message {i}")
+                # between two messages: the documents the last message names or the prediction says have changed (both
+                # URIs of the aliased one); every document is compared at the start, after the prefix and at the end
+                only = None
+                if i >= 2:
+                    prev = steps[i - 1]
+                    only = {prev["m"]["d"]} | {d for d in st["pre"]["text"] if st["pre"]["text"][d] != prev["pre"]["text"][d]}
+                    if only & {"q", "d3"}:
+                        only |= {"q", "d3"}
+                bad = self.check_obs(st["pre"], f"before message {i}", only)
                 if bad:
                     return dict(culprit(), what="state"), bad
                 self.last_sent = i
